@@ -205,8 +205,12 @@ func decodeStruct(p Paragraph, into reflect.Value) error {
 		 * or, more likely, continue through */
 		if fieldType.Anonymous {
 			if fieldType.Type == paragraphType {
-				/* Neat! Let's give the struct this data */
-				field.Set(reflect.ValueOf(p))
+				/* Neat! Let's give the struct this data (unless it is
+				 * embedded under an unexported alias name and can't
+				 * be set from here) */
+				if field.CanSet() {
+					field.Set(reflect.ValueOf(p))
+				}
 				/* and that's it - a field called `Paragraph` in the
 				 * document is not meant for this member */
 				continue
